@@ -132,6 +132,8 @@ class Serial(Harness):
             ch.note("graph", {k: [list(v[0]), v[1], [list(i) for i in v[2]]] for k, v in want.items()})
             self.roundtrip(fmt, g, want, n)
 
+    _built = 0
+
     def roundtrip(self, fmt, g, want, n):
         try:
             if fmt == "dict":
@@ -142,7 +144,8 @@ class Serial(Harness):
                 FILES.clear()
                 # other cascades have been built and extended in this process before
                 acc = ew.Cascade()
-                acc += ew.Cascade(Graph([Node("unrelated", payload="u")]))
+                Serial._built += 1
+                acc += ew.Cascade(Graph([Node(f"unrelated{Serial._built}", payload="u")]))
                 ew.Cascade(g).serialise("f.dill")
                 g2 = ew.Cascade.from_serialised("f.dill")._graph
         except Exception as e:
